@@ -15,11 +15,13 @@ package core
 //     interleaving at storage-operation granularity up to the preemption bound.
 
 import (
+	"encoding/json"
 	"fmt"
 	"os"
 	"sort"
 	"strings"
 	"testing"
+	"time"
 
 	"github.com/openbao/openbao/sdk/v2/helper/verif/sched"
 	"github.com/openbao/openbao/sdk/v2/helper/verif/vout"
@@ -258,6 +260,40 @@ func c04Apply(t *testing.T, img *Image, hist []c04Op, res *vout.Result) (string,
 			}
 		case "renew":
 			_, _ = w.s.Req(w.toks[op.Tok].id, logical.UpdateOperation, "auth/token/renew-self", nil)
+		case "expire":
+			// the token's own lease runs out (its stored times are moved two hours into the
+			// past, the node restarts and handles what is due): expiry is a revocation of the
+			// token and must cascade exactly like one
+			tk := w.toks[op.Tok]
+			if tk.lease == "" {
+				continue
+			}
+			m, _, ok := c05ReadLease(w.s, tk.lease)
+			if !ok {
+				// the lease is gone: the token was revoked earlier
+				continue
+			}
+			for _, f := range []string{"issue_time", "expire_time", "last_renewal_time"} {
+				if str, ok := m[f].(string); ok {
+					if tm, err := time.Parse(time.RFC3339Nano, str); err == nil && !tm.IsZero() {
+						m[f] = tm.Add(-2 * time.Hour).Format(time.RFC3339Nano)
+					}
+				}
+			}
+			b, _ := json.Marshal(m)
+			if resp, err := w.s.Req(w.s.Root, logical.UpdateOperation, "sys/raw/sys/expire/id/"+tk.lease, map[string]interface{}{"value": string(b)}); !OK(resp, err) {
+				t.Fatalf("harness: cannot age lease: %s", ErrText(resp, err))
+			}
+			img2 := w.s.Image()
+			w.s.Close()
+			ns, err := BootData(t, img2.Data, img2)
+			if err != nil {
+				t.Fatalf("harness: restart failed: %v", err)
+			}
+			w.s = ns
+			if tk.alive {
+				w.kill(op.Tok, false)
+			}
 		case "restart":
 			img2 := w.s.Image()
 			w.s.Close()
@@ -306,7 +342,7 @@ func c04Apply(t *testing.T, img *Image, hist []c04Op, res *vout.Result) (string,
 func c04Alphabet(ntoks int) []c04Op {
 	out := []c04Op{{"create", -1}, {"restart", 0}}
 	for i := 0; i < ntoks; i++ {
-		for _, k := range []string{"create", "lease", "cubby", "revoke", "revoke-self", "revoke-orphan", "revoke-accessor", "lease-revoke", "renew", "revoke+crash", "revoke-accessor+crash"} {
+		for _, k := range []string{"create", "lease", "cubby", "revoke", "revoke-self", "revoke-orphan", "revoke-accessor", "lease-revoke", "renew", "revoke+crash", "revoke-accessor+crash", "expire"} {
 			out = append(out, c04Op{k, i})
 		}
 	}
@@ -442,6 +478,9 @@ func TestVerifC04(t *testing.T) {
 					}
 					if strings.HasSuffix(op.Kind, "+crash") {
 						key += " C"
+					}
+					if op.Kind == "expire" {
+						key += " E"
 					}
 					if !last {
 						if seen[key] {
